@@ -31,7 +31,8 @@ func (prop) Budget(tier string) int {
 
 func (prop) Describe() kernel.Description {
 	return kernel.Description{
-		Rule: "one run = one codec (byte-stream consumer/producer, text consumer/producer, JSON, XML, YAML) × one source/destination kind " +
+		Rule: "Dimensions added with the seed waves: reader errors that are io.ErrUnexpectedEOF or wrap io.EOF, reported once, or transient (the stream carries on); documents that are one number; untyped slots behind an embedded unexported struct; the caller refilling its own source buffer after the call; a value with a wire form and a different display form; overlapping calls on one codec value. " +
+			"one run = one codec (byte-stream consumer/producer, text consumer/producer, JSON, XML, YAML) × one source/destination kind " +
 			"(supported: string/[]byte/named/pointer/*any/io.Writer/io.ReaderFrom/*bytes.Buffer/(Binary|Text)(Un)marshaler/error/Stringer/io.Reader/" +
 			"io.ReadCloser/io.WriterTo/struct/slice/map/any; unsupported: nil, typed-nil pointers, non-pointers, wrong element kinds, pre-populated) × " +
 			"one content (short, empty, all byte values, invalid UTF-8, around 512/4096, >32 KiB; for JSON/XML/YAML a seeded document or tree, incl. " +
